@@ -5,8 +5,8 @@ def _loom(tier, seed):
 
 SPEC = {
     "custom": _loom,
-    "tie": ["props/C07_tieA.vo", "tie/HandleEquiv.vo", "tie/ReprEquiv.vo", "tie/EditEquiv.vo"],
-    "gen_items": ["src/vecs/inline.rs + src/bytes/raw.rs:tag arithmetic", "src/bytes/raw/allocated.rs:slice_unchecked + explicit_clone", "src/bytes/raw.rs:range_unchecked + from_slice + normalized_from_vec", "src/bytes.rs:truncate pop shrink_to push_slice push clear repeat with_capacity as_mut_* to_mut_slice; raw.rs:make_unique take_vec; allocated.rs:shrink_to as_mut_*"],
+    "tie": ["props/C07_tieA.vo", "tie/HandleEquiv.vo", "tie/CorePinned.vo", "tie/ReprEquiv.vo", "tie/EditEquiv.vo"],
+    "gen_items": ["src/vecs/inline.rs + src/bytes/raw.rs:tag arithmetic", "src/bytes/raw/allocated.rs:slice_unchecked + explicit_clone", "src/bytes/raw*.rs + src/smart.rs:pinned bodies", "src/bytes/raw.rs:range_unchecked + from_slice + normalized_from_vec", "src/bytes.rs:truncate pop shrink_to push_slice push clear repeat with_capacity as_mut_* to_mut_slice; raw.rs:make_unique take_vec; allocated.rs:shrink_to as_mut_*"],
     "tieA_required": True,
  "id": "C07",
  "level": "proof",
